@@ -4,6 +4,14 @@ import OdlModel.Model.FunctionalsWire
 import OdlModel.Model.FunctionalsLeaves
 open OdlModel OdlModel.Functionals OdlModel.FunctionalsLeaves
 
+/-- Rational square root: exact when the argument is the square of a rational, otherwise
+accurate to a relative 2^-64 (same helper as the C07 driver). -/
+def ratSqrt (r : Rat) : Rat :=
+  if r ≤ 0 then 0 else
+  let k : Nat := 64
+  let n := r.num.toNat * r.den * 4 ^ k
+  mkRat (Nat.sqrt n) (r.den * 2 ^ k)
+
 def parseOptList (s : String) : Option (List (Option Rat)) :=
   parseList (fun t => if t = "n" then some none else (parseRat t).map some) s
 
@@ -25,7 +33,8 @@ def parseParts (l : Line) : Nat → Nat → Option (List (SepPart Rat))
     `klgrad kind=kl|klcc g=<prior> x=<vec>`       → `ok g=<vec>` | `nonfinite`
     `kldom kind=kl|klcc x=<vec>`                 → `ok inf=0|1`   (is `_call` = inf?)
     `box w=<weights> lo=<a|n,…> hi=<b|n,…> x=…`   → `ok v=0|inf`
-    `sep k=<parts> w0= f0= x0= d0= w1= …`         → `ok v=<rat|inf|noeval> g=<vec|nograd> dv=<rat|nograd>` -/
+    `sep k=<parts> w0= f0= x0= d0= w1= …`         → `ok v=<rat|inf|noeval> g=<vec|nograd> dv=<rat|nograd>`
+    `l2 w=<weights> x=<vec>`                      → `ok v=<rat> g=<vec> exact=0|1` (exact: the root is rational) -/
 def handleLeaves (l : Line) : Option String := do
   match l.op with
   | "klgrad" => do
@@ -53,6 +62,13 @@ def handleLeaves (l : Line) : Option String := do
       let hi ← l.get? "hi" >>= parseOptList
       if lo.length ≠ w.length || hi.length ≠ w.length then none
       some s!"ok v={if boxIsInf (mkBox w lo hi x) then "inf" else "0"}"
+  | "l2" => do
+      let w ← l.rats? "w"
+      if w.isEmpty then none
+      let x ← vecArg l "x" w.length
+      let v := l2Val ratSqrt w x
+      let ex := if v * v = innerW w x x then 1 else 0
+      some s!"ok v={showRat v} g={showRatList (l2Grad ratSqrt w x)} exact={ex}"
   | "sep" => do
       let k ← l.nat? "k"
       if k = 0 then none
@@ -68,7 +84,7 @@ def handleLeaves (l : Line) : Option String := do
     `deriv f=… w=… x=… d=…`                      → `ok v=<rat>` (= d.inner(grad f(x)))
     `lip f=… w=…`                                → `nan` | `inf` | `fin r=… roots=c:q;…` -/
 def handle (l : Line) : Option String := do
-  if l.op = "klgrad" || l.op = "kldom" || l.op = "box" || l.op = "sep" then handleLeaves l else
+  if l.op = "klgrad" || l.op = "kldom" || l.op = "box" || l.op = "sep" || l.op = "l2" then handleLeaves l else
   let (o, f, n) ← parseCase l false
   match l.op with
   | "val" => do
